@@ -3,16 +3,67 @@ import CnlModel.CFloat
 /-!
 # overflow-checked conversion from floating point (`is_overflow_convert<polarity, false, true>`)
 
-`rhs > static_cast<Source>(numeric_limits<Destination>::max())` flags positive overflow,
-`rhs < static_cast<Source>(numeric_limits<Destination>::lowest())` negative overflow; otherwise
-`static_cast<Destination>(rhs)` (undefined when the truncated value does not fit).
+After the repair of `C06/C07/C11.float_at_limit_not_flagged`:
+
+    float_holds_limit<Source, Destination, polarity>::value
+        ? rhs >  static_cast<Source>(numeric_limits<Destination>::max())
+        : rhs >= static_cast<Source>(numeric_limits<Destination>::max())
+
+(and `<` / `<=` against `lowest()` for the negative polarity), where `float_holds_limit` is
+`digits_v<Destination> <= numeric_limits<Source>::digits`, and always true for the negative limit
+of an unsigned type (0) or of a type with a most negative number (a power of two).  A limit the
+source format does not hold rounds away from zero to the next power of two, which is itself out of
+range, hence the non-strict comparison.  Otherwise `static_cast<Destination>(rhs)` (undefined when
+the truncated value does not fit).
+
+The destination is described by its two limits and its digit count so that the same predicate
+serves built-in integers (`lowest = -2^digits` or 0) and elastic_integer (`lowest = -max`).
+
+**As found** (`isOverflowConvertFloatOrig`, `checkedConvertFloatOrig`): the strict comparison in
+every case; `float 2^31 → int32` passed the test and the cast was executed out of range.
 -/
 namespace Cnl.Overflow
 
-def checkedConvertFloat (tag : OvTag) (f : Fmt) (D : IntTy) (x : FVal) : Res TV :=
+/-- an integer destination as the test sees it: `numeric_limits<D>::lowest()`, `::max()`,
+`digits_v<D>`, `has_most_negative_number<D>`, `signedness_v<D>` -/
+structure DestLimits where
+  lowest : Int
+  max : Int
+  digits : Nat
+  signed : Bool
+deriving Repr, DecidableEq
+
+def DestLimits.hasMostNegative (d : DestLimits) : Bool := d.signed && decide (d.lowest < -d.max)
+
+/-- a built-in integer type -/
+def DestLimits.ofIntTy (D : IntTy) : DestLimits := ⟨D.lowest, D.max, D.digits, D.signed⟩
+
+/-- `elastic_integer<D>` (signed narrowest): symmetric range -/
+def DestLimits.elastic (D : Nat) : DestLimits := ⟨-(2^D - 1), 2^D - 1, D, true⟩
+
+/-- `float_holds_limit<Source, Destination, polarity>` -/
+def floatHoldsLimit (f : Fmt) (d : DestLimits) (pos : Bool) : Bool :=
+  if !pos && (!d.signed || d.hasMostNegative) then true else decide (d.digits ≤ f.prec)
+
+/-- `is_overflow_convert<polarity, false, true>` -/
+def isOverflowConvertFloat (f : Fmt) (d : DestLimits) (pos : Bool) (x : FVal) : Bool :=
+  if pos then
+    (if floatHoldsLimit f d true then fCmp .gt x (f.ofInt d.max) else fCmp .ge x (f.ofInt d.max))
+  else
+    (if floatHoldsLimit f d false then fCmp .lt x (f.ofInt d.lowest) else fCmp .le x (f.ofInt d.lowest))
+
+/-- **as found**: strict comparison against the converted limit whatever it rounded to -/
+def isOverflowConvertFloatOrig (f : Fmt) (d : DestLimits) (pos : Bool) (x : FVal) : Bool :=
+  if pos then fCmp .gt x (f.ofInt d.max) else fCmp .lt x (f.ofInt d.lowest)
+
+def checkedConvertFloatWith (test : Fmt → DestLimits → Bool → FVal → Bool)
+    (tag : OvTag) (f : Fmt) (D : IntTy) (x : FVal) : Res TV :=
   if tag == .nat then (fToInt D x).map (fun v => (D, v)) else
-  if fCmp .gt x (f.ofInt D.max) then react tag true D
-  else if fCmp .lt x (f.ofInt D.lowest) then react tag false D
+  if test f (.ofIntTy D) true x then react tag true D
+  else if test f (.ofIntTy D) false x then react tag false D
   else (fToInt D x).map (fun v => (D, v))
+
+def checkedConvertFloat := checkedConvertFloatWith isOverflowConvertFloat
+def checkedConvertFloatOrig := checkedConvertFloatWith isOverflowConvertFloatOrig
 
 end Cnl.Overflow
